@@ -143,6 +143,10 @@ func init() {
 					p := &qtPtr{id: j + 1, p: orb.Point{coord(-512, 512), coord(-256, 768)}}
 					if j > 0 && c.rng.Intn(10) == 0 {
 						p.p = all[c.rng.Intn(len(all))].p // duplicates of stored points
+						if c.rng.Intn(2) == 0 { // ... or its neighbour one float64 away in one coordinate: nearly the same distance from anywhere
+							ax := c.rng.Intn(2)
+							p.p[ax] = math.Nextafter(p.p[ax], []float64{0, 256}[ax]) // towards the middle: stays inside the bound
+						}
 					}
 					all = append(all, p)
 					if err := q.Add(p); err != nil {
@@ -216,6 +220,12 @@ func init() {
 		for it := 0; it < c.pick(6, 40); it++ {
 			n := 50 + c.rng.Intn(400)
 			bnd := orb.Bound{Min: orb.Point{0, 0}, Max: orb.Point{64, 64}}
+			switch it % 4 { // every other tree has a bound without an end in one direction or in all (a tree for "anywhere")
+			case 1:
+				bnd = orb.Bound{Min: orb.Point{math.Inf(-1), math.Inf(-1)}, Max: orb.Point{math.Inf(1), math.Inf(1)}}
+			case 3:
+				bnd = orb.Bound{Min: orb.Point{math.Inf(-1), 0}, Max: orb.Point{math.Inf(1), 64}}
+			}
 			q := quadtree.New(bnd)
 			live := map[string]qtVal{}
 			e := map[string]interface{}{"k": "big", "n": n, "nt": 1, "ok": 1, "what": ""}
